@@ -9,7 +9,9 @@ rounding relative to the data.
 """
 import ast
 import itertools
+import math
 import os
+import random
 import sys
 import numpy as np
 from fractions import Fraction as Fr
@@ -70,6 +72,15 @@ def canon(x):
     return repr(x)
 
 
+def nan_safe(c):
+    """canonical form in which a NaN equals a NaN (for 'is this still the value that was returned')"""
+    if isinstance(c, float) and c != c:
+        return "nan"
+    if isinstance(c, (tuple, list)):
+        return type(c)(nan_safe(y) for y in c)
+    return c
+
+
 def flat(c):
     if isinstance(c, tuple) and c and c[0] == "arr":
         return list(c[2])
@@ -118,6 +129,71 @@ def vertex_on_boundary(t1, t2):
     return False
 
 
+def lcm_binom(n):
+    """lcm of the binomials C(n, 0..n): a net of degree m multiplied by it (n >= m) stays integral under exact elevation up to degree n"""
+    out = 1
+    for j in range(n + 1):
+        c = math.comb(n, j)
+        out = out * c // math.gcd(out, c)
+    return out
+
+
+def exact_fa(rows):
+    """Fortran-ordered binary64 array of an exact rational net, or None when some entry is not exactly representable"""
+    out = []
+    for r in rows:
+        fr = [float(v) for v in r]
+        if any(Fr(f) != Fr(v) for f, v in zip(fr, r)):
+            return None
+        out.append(fr)
+    return np.asfortranarray(out)
+
+
+def to_direct(args):
+    """JSON rendering of a call's arguments from which the call can be repeated bit for bit (floats round-trip through repr)"""
+    out = []
+    for x in args:
+        if isinstance(x, np.ndarray):
+            out.append({"arr": [[float(v) for v in r] for r in np.atleast_2d(x).tolist()], "ndim": int(x.ndim)})
+        elif isinstance(x, (bool, np.bool_)):
+            out.append({"bool": bool(x)})
+        elif isinstance(x, (int, np.integer)):
+            out.append({"int": int(x)})
+        else:
+            out.append({"float": float(x)})
+    return out
+
+
+def from_direct(items):
+    out = []
+    for it in items:
+        if "arr" in it:
+            a = np.asfortranarray(it["arr"], dtype=float)
+            out.append(a if it.get("ndim", 2) == 2 else np.array(it["arr"][0], dtype=float))
+        elif "bool" in it:
+            out.append(bool(it["bool"]))
+        elif "int" in it:
+            out.append(int(it["int"]))
+        else:
+            out.append(float(it["float"]))
+    return out
+
+
+# positions of a sub-triangle inside (or partly outside) its parent, as barycentric corner weights (dyadic): every one shares a
+# whole piece of at least one curved edge with the parent
+_H, _Q, _Z, _O = Fr(1, 2), Fr(1, 4), Fr(0), Fr(1)
+TRI_SUBS = {
+    "corner-A": ((_O, _Z, _Z), (_H, _H, _Z), (_H, _Z, _H)),
+    "corner-B": ((_H, _H, _Z), (_Z, _O, _Z), (_Z, _H, _H)),
+    "corner-C": ((_H, _Z, _H), (_Z, _H, _H), (_Z, _Z, _O)),
+    "edge1-middle": ((Fr(3, 4), _Q, _Z), (_Q, Fr(3, 4), _Z), (_Q, _Q, _H)),
+    "edge1-whole": ((_O, _Z, _Z), (_Z, _O, _Z), (_Q, _Q, _H)),
+    "same-triangle": ((_O, _Z, _Z), (_Z, _O, _Z), (_Z, _Z, _O)),
+    "over-corner-B": ((_H, _H, _Z), (-_H, Fr(3, 2), _Z), (_Z, _H, _H)),
+}
+TRI_SUBS_NO_COMMON_CORNER = ("edge1-middle", "over-corner-B")
+
+
 KEPT = []          # (label, raw result object, its canonical form right after the call): the user keeps what a call returned
 
 
@@ -144,6 +220,8 @@ def main():
     from bezier import _speedup
     import importlib
     rnd, seed = C.rng()
+    # independent stream (derived from the same seed) for the shared-arc families, so that the inputs of the older families stay what they were
+    rnd2 = random.Random("C07/shared-arc/%d" % seed)
     thorough = C.tier() == "thorough"
     pkg = os.environ["BEZIER_PKG"]
     pairs = enumerate_pairs(pkg)
@@ -391,6 +469,48 @@ def main():
             if a0 == a1 or b0 == b1:
                 continue
             yield (fa([[a0 * dx, a1 * dx], [a0 * dy, a1 * dy]]), fa([[b0 * dx, b1 * dx], [b0 * dy, b1 * dy]])), "intersections"
+        # the same arc presented with DIFFERENT degrees: two windows of one injective, genuinely curved integer parent of degree
+        # 2..7, each elevated 0..4 times (degree gap 0..4 in either argument order, also both elevated), second arc in either
+        # direction.  The coincidence test has to bring the two nets to a common degree first (make_same_degree: zero, one or
+        # several elevation steps of either argument) before it can compare them.  The parent is multiplied by the lcm of the
+        # binomials of the target degrees, so every elevated, specialised control point is an exact binary64 number (asserted): both
+        # implementations receive exactly coincident data and the discrete outcome (coincident flag, number of columns, exception
+        # type) has to be the same.  Straight parents (collinear, unevenly spaced nets) are NOT part of this family: on those the
+        # unchanged compiled code itself is presentation dependent (it drops the shared segment of degree 3 / 5 against degree 6 in one
+        # argument order, rounding in the straight-line path, neighbourhood of finding F-U) - reported separately, not hidden here.
+        gaps = [(0, k) for k in (1, 2, 3, 4)] + [(k, 0) for k in (1, 2, 3, 4)]
+        both = [(1, 3), (3, 1), (1, 4), (4, 1), (2, 4), (4, 2), (1, 2), (2, 1), (0, 0), (2, 2)]
+        plan = []
+        for n in (2, 3, 4, 5):
+            for _ in range(1 if not thorough else 10):
+                plan.append((n, gaps + [rnd2.choice(both), rnd2.choice(both)]))
+        for n in (6, 7):
+            for _ in range(1 if not thorough else 6):
+                ok_ = [g for g in gaps + both if n + max(g) <= 10 and abs(g[0] - g[1]) >= 2]
+                plan.append((n, [rnd2.choice(ok_) for _ in range(4)]))
+        for n, glist in plan:
+            while True:
+                par = [list(np.cumsum([rnd2.randint(1, 3) for _ in range(n + 1)])), [rnd2.randint(-3, 3) for _ in range(n + 1)]]
+                if any((par[0][1] - par[0][0]) * (par[1][j] - par[1][0]) != (par[1][1] - par[1][0]) * (par[0][j] - par[0][0]) for j in range(2, n + 1)):
+                    break                                                       # control points not collinear: a genuinely curved arc
+            for e1, e2 in glist:
+                scale = lcm_binom(n + e1) * lcm_binom(n + e2)
+                (a, b), (c, d) = rnd2.choice(wins), rnd2.choice(wins)
+                if rnd2.random() < 0.5:
+                    c, d = d, c
+                first = [X.specialize_exact([Fr(int(v)) * scale for v in r], a, b) for r in par]
+                second = [X.specialize_exact([Fr(int(v)) * scale for v in r], c, d) for r in par]
+                for _ in range(e1):
+                    first = [X.elevate_exact(r) for r in first]
+                for _ in range(e2):
+                    second = [X.elevate_exact(r) for r in second]
+                n1, n2 = exact_fa(first), exact_fa(second)
+                if n1 is None or n2 is None:
+                    res.skip("shared-arc: net not exactly representable")
+                    continue
+                gap = abs(e1 - e2)
+                yield (n1, n2), "intersections", {"family": "shared-arc", "degrees": "%d-%d" % (n + e1, n + e2),
+                                                  "cls": "shared-arc:" + ("equal-degree" if gap == 0 else "degree-gap=1" if gap == 1 else "degree-gap>=2")}
 
     @reg("_intersection_helpers.newton_refine", "mixed")
     def _():
@@ -504,6 +624,51 @@ def main():
                     return fa([[q[0] for q in p], [q[1] for q in p]])
         for _ in range(80 if not thorough else 800):
             yield (lt(), 1, lt(), 1, True), "tri-intersections"
+        # curved triangles of DIFFERENT degree that share whole pieces of curved edges: a valid integer parent of degree 2..3 (4 in the
+        # thorough tier) against a dyadic sub-triangle of it (corner pieces, a piece resting on the middle of an edge, on a whole edge,
+        # the parent itself, a piece sticking out over a corner), each elevated 0..3 times, either argument order.  The edge-edge
+        # intersections of such a pair are coincident arcs of unequal degree.  Exact nets as above (parent multiplied by the product
+        # of the elevation denominators).  `verify` is False (the compiled routine ignores it; with True the pure implementation
+        # refuses pairs with a common corner from verify_duplicates, the class of finding F-H) and True only for the positions
+        # without a common corner.
+        tgaps = [(0, 2), (2, 0), (0, 3), (3, 0), (1, 3), (3, 1)]
+        tnear = [(0, 1), (1, 0), (0, 0), (1, 1), (1, 2)]
+        for d in ((2, 3) if not thorough else (2, 3, 4, 2, 3, 4, 2, 3)):
+            xs, ys = [], []
+            for k in range(d + 1):
+                for j in range(d + 1 - k):
+                    xs.append(Fr(j * 8 + rnd2.randint(-1, 1)))
+                    ys.append(Fr(k * 8 + rnd2.randint(-1, 1)))
+            todo = [(sub, rnd2.choice(tgaps)) for sub in TRI_SUBS] + [(rnd2.choice(list(TRI_SUBS)), rnd2.choice(tnear)) for _ in range(2)]
+            if thorough:
+                todo += [(sub, g) for sub in TRI_SUBS for g in tgaps + tnear]
+            for sub, (e1, e2) in todo:
+                if d + max(e1, e2) > 6:
+                    e1, e2 = min(e1, 6 - d), min(e2, 6 - d)
+                scale = 1
+                for i in range(1, max(e1, e2) + 1):
+                    scale *= d + i
+                first = [[v * scale for v in xs], [v * scale for v in ys]]
+                second = [X.tri_specialize_exact(r, d, *TRI_SUBS[sub]) for r in first]
+                d1 = d2 = d
+                for _ in range(e1):
+                    first = [X.tri_elevate_exact(r, d1) for r in first]
+                    d1 += 1
+                for _ in range(e2):
+                    second = [X.tri_elevate_exact(r, d2) for r in second]
+                    d2 += 1
+                n1, n2 = exact_fa(first), exact_fa(second)
+                if n1 is None or n2 is None:
+                    res.skip("shared-curved-edge: net not exactly representable")
+                    continue
+                verify = sub in TRI_SUBS_NO_COMMON_CORNER and rnd2.random() < 0.5
+                gap = abs(d1 - d2)
+                tag = {"family": "shared-curved-edge", "degrees": "%d-%d" % (d1, d2), "position": sub,
+                       "cls": "shared-curved-edge:" + ("equal-degree" if gap == 0 else "degree-gap=1" if gap == 1 else "degree-gap>=2")}
+                if rnd2.random() < 0.5:
+                    yield (n1, d1, n2, d2, verify), "tri-intersections", tag
+                else:
+                    yield (n2, d2, n1, d1, verify), "tri-intersections", tag
 
     # ------------------------------------------------------------------ run
     registered = set(GEN)
@@ -562,14 +727,26 @@ def main():
         pure_fn = getattr(importlib.import_module("bezier.hazmat." + pmod), pattr)
         fast_fn = getattr(_speedup, pairs[(shim, fname)]["speedup"])
         kind0, genf = GEN[name]
-        for idx, (args, kind) in enumerate(genf()):
-            if rep and idx != rep["index"] and not rep.get("whole_run"):
+        if rep and rep.get("direct") is not None:
+            # a case that carries its own arguments (the shared-arc families): repeated bit for bit, whatever seed / tier is set now
+            cases = [(rep["index"], (from_direct(rep["direct"]), rep["kind"], rep.get("tag")))]
+        else:
+            cases = enumerate(genf())
+        for idx, item in cases:
+            args, kind = item[0], item[1]
+            tag = item[2] if len(item) > 2 else None
+            if rep and rep.get("direct") is None and idx != rep["index"] and not rep.get("whole_run"):
                 continue
             # fresh copies for each side (also detects in-place modification differences)
             a = run(pure_fn, [np.array(x, order="F") if isinstance(x, np.ndarray) else x for x in args])
             rc = {"name": name, "index": idx, "seed": seed, "kind": kind, "args": str([canon(x) for x in args])[:600]}
+            if tag:
+                rc.update(tag=tag, direct=to_direct(args))
             b = run(fast_fn, [np.array(x, order="F") if isinstance(x, np.ndarray) else x for x in args], keep=(name, rc))
-            res.count((name, str([canon(x) for x in args])), op=name, kind=kind.split(":")[0], outcome=a[0] if a[0] == "exc" else "ok")
+            res.count((name, str([canon(x) for x in args])), op=name, kind=kind.split(":")[0], outcome=a[0] if a[0] == "exc" else "ok",
+                      **({"family": tag["family"], tag["family"] + ":degrees": tag["degrees"],
+                          tag["family"] + ":outcome": (a[1] if a[0] == "exc" else "coincident" if name.endswith("all_intersections") and a[1][1] is True
+                                                       else "returned")} if tag else {}))
             if idx < 1:
                 res.sample({"op": name, "kind": kind, "pure": str(a)[:100], "compiled": str(b)[:100]})
             bad = compare(name, kind, args, a, b, rc)
@@ -585,16 +762,20 @@ def main():
                 if name == "_triangle_intersection.geometric_intersect" and a == ("exc", "ValueError") and b[0] == "ok" \
                         and vertex_on_boundary(args[0], args[2]):
                     key = "tri-intersect:vertex-on-boundary:py-raises-f90-returns"
+                if tag:
+                    # the shared-arc families name their own class (degrees of the two presentations), never one of the keys above
+                    key = "py-vs-f90:%s:%s:%s" % (name, what, tag["cls"])
+                    detail = "%s [%s, degrees %s%s]" % (detail, tag["family"], tag["degrees"], ", position " + tag["position"] if "position" in tag else "")
                 res.failure(key, "%s: %s" % (name, detail), rc)
     # what the compiled call returned must still be what it returned: results are kept (as a program keeps them) and read again
     # after all later calls; the pure implementation always hands out fresh arrays
     if not rep or rep.get("whole_run"):
         for (name, rc), raw, c0 in KEPT:
             c1 = canon(raw)
-            if c1 != c0:
+            if nan_safe(c1) != nan_safe(c0):            # NaN entries are unchanged entries (NaN != NaN was a false alarm, soak seed 13)
                 res.failure("py-vs-f90:%s:result-changed-by-later-calls" % name, "%s: the value returned by the compiled routine read %s right after "
                             "the call and %s after later calls of the run (the pure implementation returns independent arrays)" %
-                            (name, str(c0)[:160], str(c1)[:160]), dict(rc, whole_run=True))
+                            (name, str(c0)[:160], str(c1)[:160]), dict({k: v for k, v in rc.items() if k != "direct"}, whole_run=True))
                 break
     res.emit()
     if rep:
